@@ -313,6 +313,9 @@ func c16Read(c *Ctx) {
 				}
 			}
 		})
+		if dec == nil {
+			dec = c16UpCounterSkip(fn)
+		}
 		if len(scans) != 1 || dec == nil {
 			r.Unknown("C16/R4", "file_storage.GetMessages:skip", "reader skips `offset` lines with a counter", c.Pos(fn.Pos()), "scan loop / offset decrement not recognised")
 		} else {
@@ -326,6 +329,9 @@ func c16Read(c *Ctx) {
 					if k, ok := ssax.ConstInt(cd.Y); ok && k == 0 {
 						continue
 					}
+				}
+				if cd.Op != token.ILLEGAL && c16IsSkipTest(cd) {
+					continue
 				}
 				extra = append(extra, p+" at "+c.PosOf(cd.If))
 			}
@@ -349,6 +355,7 @@ func c16Read(c *Ctx) {
 				switch {
 				case cd.Op == token.ILLEGAL && strings.Contains(p, ".Scan()"):
 				case cd.Op != token.ILLEGAL && strings.Contains(p, "offset") && !strings.Contains(p, "IgnoreList"):
+				case cd.Op != token.ILLEGAL && c16IsSkipTest(cd):
 				case strings.Contains(p, "IgnoreList["):
 					nIgnore++
 				case strings.Contains(p, "json.Unmarshal("):
@@ -384,4 +391,68 @@ func c16Read(c *Ctx) {
 		r.Check(inLoop && stop && len(ssax.NilErrEdgesOfCall(fn, call)) > 0, "C16/R4", "file_storage.Send:ordered-stop-on-error", "messages are appended in argument order and Send stops at the first failure", c.PosOf(call),
 			sprintf("ranges over msgs=%v, stops on error=%v", inLoop, stop))
 	}
+}
+
+
+// c16IsSkipTest: `counter < offset` (either orientation) where counter is a phi that starts at 0 and offset is the parameter.
+func c16IsSkipTest(cd ssax.Cond) bool {
+	_, ok := c16SkipCounter(cd)
+	return ok
+}
+
+func c16SkipCounter(cd ssax.Cond) (*ssa.Phi, bool) {
+	var lesser, greater ssa.Value
+	switch cd.Op {
+	case token.LSS:
+		lesser, greater = cd.X, cd.Y
+	case token.GTR:
+		lesser, greater = cd.Y, cd.X
+	default:
+		return nil, false
+	}
+	if ssax.Path(greater) != "offset" {
+		return nil, false
+	}
+	ph, ok := ssax.Resolve(lesser).(*ssa.Phi)
+	return ph, ok
+}
+
+// c16UpCounterSkip recognises the counting-up form of the positional skip: `if skipped < offset { skipped++; continue }`
+// with skipped starting at 0 and incremented nowhere else; returns the increment.
+func c16UpCounterSkip(fn *ssa.Function) ssa.Instruction {
+	for _, cd := range ssax.Conds(fn) {
+		ph, ok := c16SkipCounter(cd)
+		if !ok {
+			continue
+		}
+		// (a Cond's relation is the one that holds on the true edge)
+		lt := ssax.Edge{From: cd.If.Block(), Succ: 0}
+		var inc ssa.Instruction
+		good := true
+		for _, e := range ph.Edges {
+			switch x := ssax.Resolve(e).(type) {
+			case *ssa.Const:
+				if k, isInt := ssax.ConstInt(x); !isInt || k != 0 {
+					good = false
+				}
+			case *ssa.Phi:
+				if x != ph {
+					good = false
+				}
+			case *ssa.BinOp:
+				k, isInt := ssax.ConstInt(x.Y)
+				if x.Op != token.ADD || !isInt || k != 1 || ssax.Resolve(x.X) != ssa.Value(ph) || ssax.ReachableAvoiding(fn, x, []ssax.Edge{lt}, nil) {
+					good = false
+				} else {
+					inc = x
+				}
+			default:
+				good = false
+			}
+		}
+		if good && inc != nil {
+			return inc
+		}
+	}
+	return nil
 }
